@@ -341,7 +341,7 @@ class C19(Prop):
     props_file = 'Props/C19.v'
     imports = ['Model.NodeProto', 'Model.NodeProtoObs']
     quick_n = 120
-    thorough_n = 4000
+    thorough_n = 1200
     rule = ('two real circuits.node.Node objects (caller: Node.add -> Client -> Protocol; callee: Node(port) -> Server -> '
             'Protocol) in two managers, joined by fake transports; the harness moves the written bytes in reads of '
             'generated sizes (single cuts at every offset of a packet in the thorough tier, byte-at-a-time, > 4 KiB '
